@@ -7,9 +7,9 @@ FILES = ["Base/Prelude.v", "Base/Dec.v", "Model/NetPropsLib.v", "Gen/NetProps.v"
          "Model/C19Check.v", "Proofs/NetProps.v"]
 
 
-def observe(R, n, seed=None):
+def observe(R, n, seed=None, hist=8):
     env = {"VERIF_SEED": str(seed)} if seed is not None else None
-    out = R.harness("c19", ["-n", n], env=env, outdir=os.path.join(R.work, "c19_%s" % (seed if seed is not None else "main")))
+    out = R.harness("c19", ["-n", n, "-hist", hist, "-hsteps", 8], env=env, outdir=os.path.join(R.work, "c19_%s" % (seed if seed is not None else "main")))
     if not out:
         return None
     res = R.coq_cases(out, label="C19 correspondence")
@@ -38,11 +38,11 @@ def run(R):
     if R.tier == "thorough":
         R.coqchk()
     n = 400 if R.tier == "quick" else 6000
-    obs = observe(R, n)
+    obs = observe(R, n, hist=10 if R.tier == "quick" else 200)
     total = 0
     if obs:
         out, mism, viol, total, cases = obs
-        R.oblige("correspondence: model = real keeper/msg server/proposal handler/genesis on %d cases" % total, not mism,
+        R.oblige("correspondence: model = real keeper/msg server/proposal handler/genesis and ABCI histories (tx path, proposal life cycle) on %d cases" % total, not mism,
                  "first mismatching cases: " + json.dumps([cases[i] for i in mism[:5]]))
         for idx, cl in viol:
             R.violation(sig_of(cases[idx], cl), "real code violates clause(s) %s on %s" % (cl, json.dumps(cases[idx])), cases[idx])
@@ -51,7 +51,7 @@ def run(R):
     # a broken proof / correspondence: widen the search for a concrete failing input
     if R.broken and not R.violations:
         for s in range(100, 104):
-            o2 = observe(R, 3000, seed=R.seed + s)
+            o2 = observe(R, 3000, seed=R.seed + s, hist=60)
             if o2:
                 _, _, viol2, t2, cases2 = o2
                 total += t2
@@ -59,7 +59,7 @@ def run(R):
                     R.violation(sig_of(cases2[idx], cl), "real code violates clause(s) %s on %s" % (cl, json.dumps(cases2[idx])), cases2[idx])
                 if viol2:
                     break
-    R.finish(level="proof", technique="Coq proof over a model regenerated from keeper.go by a translator + differential run of the real keeper; spec checker vm_computed on real observations",
+    R.finish(level="proof", technique="Coq proof (single requests and arbitrary histories of writes by every path) over a model regenerated from keeper.go by a translator + differential run of the real keeper, msg server, proposal handler, genesis import and of whole histories through ABCI (DeliverTx, proposal submit/vote/EndBlocker); spec checker vm_computed on real observations",
              extra={"evaluations": total})
 
 
